@@ -432,7 +432,7 @@ def plan(tier, seed):
     shards = [{"kind": "exh", "mod": 12, "rem": i, "seed": seed * 1000 + i} for i in range(12)]
     shards.append({"kind": "local", "seed": seed * 1000 + 40})
     for i in range(4):
-        shards.append({"kind": "sample", "seed": seed * 1000 + 50 + i, "n": 60 if tier == "quick" else 1500})
+        shards.append({"kind": "sample", "seed": seed * 1000 + 50 + i, "n": 120 if tier == "quick" else 1500})
     return shards
 
 
